@@ -42,7 +42,9 @@ TDeliver ==
   /\ F!NextFrame(ev.c) # F!NoFrame
   /\ LET o == F!C!Outcome(F!NextFrame(ev.c).bytes) IN F!Deliver(ev.c, o) /\ Matches(o)
 TEnd == IsEvent("End") /\ (F!EndErr(ev.c) \/ F!EndEof(ev.c))
+\* a delivered message is the consumer's: it still reads the same after later messages arrived
+TRecheck == IsEvent("Recheck") /\ ev.same /\ UNCHANGED << store, nmsg, mode, written, pos, cclosed, ended >>
 
-Next == TReset \/ TSeg \/ TClientClose \/ TDeliver \/ TEnd
+Next == TReset \/ TSeg \/ TClientClose \/ TDeliver \/ TEnd \/ TRecheck
 Spec == Init /\ [][Next]_vars
 =============================================================================
